@@ -200,6 +200,33 @@ def lane_recorded(a, spec):
         prev = blk.hash()
         # and with the real horizon in force (the production configuration)
     a.samples.append({"lane": "recorded", "blocks": [f[1] for f in files], "head_height": cs.head().height})
+    # the same real blocks must also pass when they arrive on a side branch: a competing block at height h got there
+    # first (stored without validation, like a bulk-download block) and is the head while real h and h+1 arrive
+    import skepticoin.datatypes as dt
+    import skepticoin.signing as sg
+    blocks = [Block.deserialize(raw) for (_h, _i, raw) in files]
+    for h in range(1, len(blocks)):          # competitor at height h (1-based heights: blocks[h-1] has height h)
+        cs2 = CoinState.zero()
+        for b in blocks[:h - 1]:
+            cs2 = cs2.add_block_no_validation(b)
+        parent = blocks[h - 2].hash() if h >= 2 else ref.GENESIS_ID
+        rival = cheap(dt, sg, h, parent, 900 + h)
+        cs2 = cs2.add_block_no_validation(rival)            # first seen at height h: stays head on the tie
+        ok = True
+        for b in blocks[h - 1:h + 1]:
+            a.n += 1
+            a.inc("recorded_blocks_validated_on_side_branch")
+            a.digests.add(digest("side", h, b.height))
+            try:
+                cs2 = cs2.add_block(b, b.timestamp)
+            except Exception as e:
+                a.v("recorded-block-refused-while-another-branch-is-head", "real block h=%d refused by full validation (real "
+                    "scrypt) while a competing block at height %d is the head: %r" % (b.height, h, e), {"lane": "recorded", "height": b.height})
+                ok = False
+                break
+        if ok and cs2.head().height != h + 1 and h + 1 <= len(blocks):
+            a.v("real-chain-not-followed", "after real blocks up to h=%d arrived the head height is %d" % (h + 1, cs2.head().height),
+                {"lane": "recorded"})
 
 
 def lane_path(a, spec):
@@ -343,6 +370,7 @@ def finalize(m, tier):
                 "scrypt; distinct = distinct (height, presented id) cases",
         "floors": [("checkpoint_heights", c.get("checkpoint_heights", 0), 327), ("wrong_id_refused", c.get("wrong_id_refused", 0), 1300),
                    ("in_state_passed_real_scrypt", c.get("in_state_passed_real_scrypt", 0), 5),
+                   ("recorded_blocks_validated_on_side_branch", c.get("recorded_blocks_validated_on_side_branch", 0), 8),
                    ("horizon_at_horizon_height", c.get("horizon_at_horizon_height", 0), 20),
                    ("path_wrong_id_at_checkpoint", c.get("path_wrong_id_at_checkpoint", 0), 2)],
         "extra": {},
